@@ -40,7 +40,7 @@ TRUSTED_BASE = [
     "second tie (translator kind): lib/props/c05_slice.py executes alloc / free / init of the three pools symbolically on the clang "
     "JSON AST of the C text of this run (atomic loads -> inputs ld<k>, weak compare-exchange -> inputs cur<k>/spur<k>, block "
     "pointers -> (block index, width of the offset product, byte offset), same-file helpers inlined, retry / scan loops "
-    "unrolled twice, init loops summarised with lfill, muggle_next_pow_of_2 uninterpreted) and lib/leaftrans.py translates the "
+    "unrolled up to their third atomic operation, init loops and a memset of the whole data area summarised with lfill, muggle_next_pow_of_2 uninterpreted) and lib/leaftrans.py translates the "
     "integer expressions with their C widths (coq/gen/Params_C05.v gen_*); obligations gen_*_matches_model prove them equal to "
     "reference functions for every capacity 2^0..2^31 (complete sweep), every uint32 cursor value and every value another "
     "thread may store, by a shape-independent decision tactic, and express the model's steps / tinit / sinit / rinit / "
@@ -61,7 +61,7 @@ EVIDENCE_NOTES = [
     "the block-size formula, a requested allocation size or the initial ring contents, or makes a function unsliceable, breaks a "
     "gen_*_matches_model obligation even when no generated history reaches the difference.  Not in the translator tie: memory "
     "orders (extracted separately), the spinlock, destroy, muggle_sowr_memory_pool_is_all_free, the order of plain accesses "
-    "inside one plain segment, a third and later iteration of the CAS-retry / in_use-scan loops (the unrolling stops there; "
+    "inside one plain segment, what the CAS-retry / in_use-scan loops do from their third atomic operation on (the unrolling stops there; "
     "the trace acceptance covers them).",
     "init-time size arithmetic is 32-bit in the C text (block_size, capacity * block_size, block_size * i are products of "
     "muggle_sync_t): *_init_sizes_partial prove exactness, block_size >= head + data_size, exact block offsets and the initial "
